@@ -132,6 +132,20 @@ def run(tier):
                     if ver == "v3":
                         m.update(engine=list(bytes(range(1, 12))), user=list(b"user"), auth_params=[], priv_params=[], msg_id=str(rid), boots="1", time="255", fa=False, fr=False)
                     msgs.append((m, rid, oids))
+    # OCTET STRING fields of the messages (community, user name, engine id) across the length forms of their own headers
+    for L in (0, 1, 31, 32, 33, 64, 127, 128, 129, 255, 256, 300):
+        for ver in ("v1", "v2c", "v3"):
+            rid = 4242 + L
+            oids = ["1.3.6.1.2.1.1.%d.0" % (L % 9 + 1)]
+            m = {"op": "msg_rt", "ver": ver, "community": list(b"c" * L), "pdu": {"type": "get", "id": str(rid), "oids": oids}}
+            if ver == "v3":
+                for which in ("user", "engine"):
+                    m3 = dict(m)
+                    m3.update(engine=list(bytes((i * 5 + 1) % 256 for i in range(L if which == "engine" else 11))), user=list(b"n" * (L if which == "user" else 4)),
+                              auth_params=[], priv_params=[], msg_id=str(rid), boots="1", time="255", fa=False, fr=False)
+                    msgs.append((m3, rid, oids))
+            else:
+                msgs.append((m, rid, oids))
     obs = rs.run([m for m, _, _ in msgs])
     recs = []
     for (m, rid, oids), o in zip(msgs, obs):
@@ -139,11 +153,13 @@ def run(tier):
         if o.get("r") != "ok":
             if o.get("r") == "err" and o.get("e") == "OutOfBuffer":
                 continue                                  # does not fit the buffer: outside C15's quantifier (C17)
-            recs.append(dict(ver=m["ver"], wire=[], names=names, id=bigint(rid), backok=False, backnames=[], backid=bigint(0)))
+            recs.append(dict(ver=m["ver"], wire=[], names=names, id=bigint(rid), backok=False, backnames=[], backid=bigint(0),
+                             community=m["community"], user=m.get("user", []), engine=m.get("engine", [])))
             continue
         back = o["back"]
         ok, bid, bnames = parse_repr_names(back.get("repr", "")) if back.get("r") == "ok" else (False, 0, [])
-        recs.append(dict(ver=m["ver"], wire=o["wire"], names=names, id=bigint(rid), backok=ok, backnames=bnames, backid=bigint(bid)))
+        recs.append(dict(ver=m["ver"], wire=o["wire"], names=names, id=bigint(rid), backok=ok, backnames=bnames, backid=bigint(bid),
+                         community=m["community"], user=m.get("user", []), engine=m.get("engine", [])))
         chk.case(("msg", m["ver"], m["pdu"]["type"], len(oids), rid), nontrivial=len(oids) > 0)
     mrecs = recs
     for i in range(0, len(recs), 200):
